@@ -958,6 +958,9 @@ def run(ctx):
     import numpy as np
 
     search_needed = []
+    from . import stft as _stft
+
+    _stft.regenerate_si(ctx)
     pr = C.proof_step(ctx)
     gate = C.grep_gate(["C03/Exec.v"])
     ok, out = C.coq_make(["C03/Exec.v"])
